@@ -15,4 +15,21 @@ Section UnfixedRefuted.
   (* index 0 bound to phyid 0 in one thread and to phyid 1 in another *)
   Definition w_two : list stream_meta :=
     [mkS n0 100 101 (Some 1) None None (Some [(0, 0)]); mkS n0 100 102 None None None (Some [(0, 1)])].
+
+  Lemma unfixed_conflict_crashes : exists m, contradictory m /\ Unfixed.build m = Crash.
+  Proof.
+    exists w_two. split.
+    - apply C_index_two_phyids with (l := n0) (i := 0) (p := 0) (q := 1); [simpl; auto | simpl; auto | lia].
+    - vm_compute. reflexivity.
+  Qed.
+
+  Lemma unfixed_union_crashes :
+    exists m1 m2 sys, same_union m1 m2 /\ rank_names_proc m1 /\ Unfixed.build m1 = Crash /\ Unfixed.build m2 = Ok sys.
+  Proof.
+    exists w_desc, w_asc. eexists. split; [|split; [|split]].
+    - repeat split; try (simpl; apply Permutation_refl); simpl; intros; tauto.
+    - intros k1 k2 r a b H. simpl in H. contradiction.
+    - vm_compute. reflexivity.
+    - vm_compute. reflexivity.
+  Qed.
 End UnfixedRefuted.
